@@ -296,6 +296,28 @@ def param_cases(tier):
             if line_width(proto) <= 80:
                 text = HDR_C + proto + "\n\n" + F2
                 yield (f"params:prototype:rot{rot}", text, n, 13)
+    # a function returning a function pointer: its own list is counted, never the list of the returned pointer; and a
+    # function-pointer parameter counts once, whatever its own arity
+    names = "abcdefghij"
+    for n in range(1, 11):
+        own = ", ".join(f"int {names[i]}" for i in range(n))
+        for m in (1, 4, 5, 6):
+            tr = ", ".join(["int"] * m)
+            sig = f"void\t(*ft_subject({own}))({tr})"
+            if line_width(sig) <= 80:
+                yield (f"params:fptr-return-definition:trailing{m}", HDR_C + sig + "\n{\n\treturn (0);\n}\n", n, 13)
+            if line_width(sig + ";") <= 80:
+                yield (f"params:fptr-return-prototype:trailing{m}", HDR_C + sig + ";\n\n" + F2, n, 13)
+        for arity in (1, 2, 4, 5):
+            inner = ", ".join(["int"] * arity)
+            for pos in (0, n - 1):
+                ps = [f"int {names[i]}" for i in range(n)]
+                ps[pos] = f"int (*{names[pos]})({inner})"
+                sig = f"int\tft_subject({', '.join(ps)})"
+                if line_width(sig) <= 80:
+                    yield (f"params:fptr-param-definition:arity{arity}:{'first' if pos == 0 else 'last'}", HDR_C + sig + "\n{\n\treturn (0);\n}\n", n, 13)
+                if line_width(sig + ";") <= 80:
+                    yield (f"params:fptr-param-prototype:arity{arity}:{'first' if pos == 0 else 'last'}", HDR_C + sig + ";\n\n" + F2, n, 13)
 
 
 VAR_POOL = [("int", "a"), ("char", "*b"), ("int", "c[4]"), ("t_list", "*d"), ("unsigned int", "e"), ("char", "**f"),
@@ -367,7 +389,8 @@ def judge(task):
             out.append(("missing", f"{n} parameters: {errs[:3]}"))
         if n <= 4 and hit:
             out.append(("spurious", f"{n} parameters: {hit}"))
-        if n <= 4 and [d for d in errs if d[1] != "TOO_MANY_ARGS"]:
+        if n <= 4 and [d for d in errs if d[1] != "TOO_MANY_ARGS"] and "fptr-return-definition" not in label:
+            # (the unnamed parameter types of the returned pointer's list get MISSING_IDENTIFIER in a definition)
             out.append(("other-error-at-limit:" + errs[0][1], f"{errs[:3]}"))
     elif kind == "vars":
         hit = sorted(d[2] for d in errs if d[1] == "TOO_MANY_VARS_FUNC")
